@@ -56,7 +56,8 @@ Line protocol for C16. One case = one op line.
 
 In `round` ops `cw` creators are cancelled (mode=threads) or SIGKILLed (mode=procs) while they are blocked in
 flock; `sig=<S>` (mode=procs) sends S signals without SA_RESTART to every blocked flock thread (EINTR and
-retry: no transition of the model).
+retry: no transition of the model); `sigx=<K>` (mode=procs) signals the last K late creators until their retry
+loop gives up after five interruptions (model: `fail` at `.waiting`, outcome `err:locking`).
 
 The judge evaluates the statement of C16 on the implementation's lines only (no model involved).
 -/
@@ -273,6 +274,15 @@ def simRound (ws : List String) : List String := Id.run do
   sim := drain cfg sim early
   if late + cw > 0 then
     sim := drain cfg sim (early ++ latePids ++ cwPids)
+    -- `sigx` late creators are signalled until their blocking flock has been interrupted five times and the
+    -- retry loop gives up (file_creation.rs:233-244): the flock fails
+    for p in (latePids.reverse.take (kvNat ws "sigx" 0)) do
+      match sim.s.pc p with
+      | .waiting _ =>
+        match next sim.pl sim.s (.fail p) with
+        | some s' => sim := { sim with s := s' }
+        | none => pure ()
+      | _ => pure ()
     -- the waiters that are to be cancelled are now blocked in flock: drop their futures
     for p in cwPids do
       if (kv ws "mode").getD "threads" = "procs" then
